@@ -51,8 +51,20 @@ impl Kind {
     }
 }
 
+/// What happens to a query besides being scheduled.
+#[derive(Clone, Debug, PartialEq)]
+enum Fate {
+    Normal,
+    /// reads of this chunk file issued by the query's own task fail (this hits the schema
+    /// inference of its table registration)
+    ReadFault(u32),
+    /// the query's future is dropped by a `C<i>` command instead of being resumed
+    Cancel,
+}
+
 #[derive(Clone, Debug)]
 struct Q {
+    fate: Fate,
     kind: Kind,
     lo: i64,
     hi: i64,
@@ -92,10 +104,15 @@ impl Dataset {
             .collect::<Vec<_>>()
             .join(";")
     }
+    fn faults_text(&self) -> String {
+        let f: Vec<String> = self.queries.iter().enumerate().filter(|(_, q)| matches!(q.fate, Fate::ReadFault(_))).map(|(i, _)| (i + 1).to_string()).collect();
+        if f.is_empty() { "-".to_string() } else { f.join(",") }
+    }
     fn to_json(&self) -> Value {
         json!({
             "chunks": self.chunks.iter().map(|c| json!({"id": c.id, "min": c.min_ts, "max": c.max_ts, "rows": c.rows, "extra": c.extra_label})).collect::<Vec<_>>(),
-            "queries": self.queries.iter().map(|q| json!({"kind": q.kind.name(), "lo": q.lo, "hi": q.hi, "pred": q.pred})).collect::<Vec<_>>(),
+            "queries": self.queries.iter().map(|q| json!({"kind": q.kind.name(), "lo": q.lo, "hi": q.hi, "pred": q.pred,
+                "fate": match &q.fate { Fate::Normal => json!("normal"), Fate::Cancel => json!("cancel"), Fate::ReadFault(c) => json!({"read_fault_chunk": c}) }})).collect::<Vec<_>>(),
             "indexed": self.indexed,
         })
     }
@@ -121,6 +138,13 @@ impl Dataset {
                 .map(|a| {
                     a.iter()
                         .map(|q| Q {
+                            fate: if q["fate"] == "cancel" {
+                                Fate::Cancel
+                            } else if let Some(c) = q["fate"]["read_fault_chunk"].as_u64() {
+                                Fate::ReadFault(c as u32)
+                            } else {
+                                Fate::Normal
+                            },
                             kind: Kind::parse(q["kind"].as_str().unwrap_or("query")),
                             lo: q["lo"].as_i64().unwrap_or(0),
                             hi: q["hi"].as_i64().unwrap_or(0),
@@ -219,10 +243,12 @@ async fn make_node(world: &World, indexed: bool) -> Arc<QueryNode> {
 enum Cmd {
     S(usize),
     R(usize),
+    /// drop the query's future wherever it is
+    C(usize),
 }
 
 fn cmds_text(cs: &[Cmd]) -> String {
-    cs.iter().map(|c| match c { Cmd::S(i) => format!("S{}", i), Cmd::R(i) => format!("R{}", i) }).collect::<Vec<_>>().join(",")
+    cs.iter().map(|c| match c { Cmd::S(i) => format!("S{}", i), Cmd::R(i) => format!("R{}", i), Cmd::C(i) => format!("C{}", i) }).collect::<Vec<_>>().join(",")
 }
 
 fn parse_cmds(s: &str) -> Vec<Cmd> {
@@ -230,7 +256,7 @@ fn parse_cmds(s: &str) -> Vec<Cmd> {
         .filter(|t| t.len() >= 2)
         .map(|t| {
             let i: usize = t[1..].parse().unwrap_or(1);
-            if t.starts_with('S') { Cmd::S(i) } else { Cmd::R(i) }
+            if t.starts_with('S') { Cmd::S(i) } else if t.starts_with('C') { Cmd::C(i) } else { Cmd::R(i) }
         })
         .collect()
 }
@@ -242,6 +268,8 @@ enum Ev {
 }
 
 struct Outcome {
+    /// number of read errors the flaky store injected
+    injected: u64,
     /// per query (1-based ids): result text, or "-" when it did not complete
     results: Vec<String>,
     /// what the driver saw, for the replay output
@@ -260,9 +288,15 @@ async fn run_schedule(ds: &Dataset, cmds: &[Cmd]) -> Outcome {
     let mut waiting: VecDeque<usize> = VecDeque::new();
     let mut results: Vec<Option<String>> = vec![None; n];
     let mut started = vec![false; n];
+    let mut cancelled = vec![false; n];
     let mut trace = Vec::new();
     let mut consistent = true;
-    let mut handles = Vec::new();
+    let mut handles: BTreeMap<usize, tokio::task::JoinHandle<()>> = BTreeMap::new();
+    for (i, q) in ds.queries.iter().enumerate() {
+        if let Fate::ReadFault(c) = q.fate {
+            world.flaky.fail_reads(i + 1, &chunk_path(c));
+        }
+    }
 
     // full command list = the schedule, then a drain that resumes whatever is still paused
     let mut all: Vec<Cmd> = cmds.to_vec();
@@ -283,10 +317,10 @@ async fn run_schedule(ds: &Dataset, cmds: &[Cmd]) -> Outcome {
                 let nd = node.clone();
                 let tx = done_tx.clone();
                 let id = *i;
-                handles.push(tokio::spawn(async move {
+                handles.insert(id, tokio::spawn(CURRENT_Q.scope(id, async move {
                     let r = run_query(nd, q).await;
                     let _ = tx.send((id, r));
-                }));
+                })));
                 waiting.push_back(*i);
                 trace.push(format!("S{}", i));
             }
@@ -299,13 +333,28 @@ async fn run_schedule(ds: &Dataset, cmds: &[Cmd]) -> Outcome {
                     None => continue, // not at the pause point: the command does nothing
                 }
             }
+            Cmd::C(i) => {
+                if *i == 0 || *i > n || !started[*i - 1] || results[*i - 1].is_some() {
+                    continue;
+                }
+                // drop the future first (so that losing the resume token does not let it run on)
+                if let Some(h) = handles.get(i) {
+                    h.abort();
+                }
+                waiting.retain(|j| j != i);
+                tokens.remove(i);
+                cancelled[*i - 1] = true;
+                trace.push(format!("C{}", i));
+            }
         }
         // let the runtime run until nothing can move any more
         loop {
             let ev = tokio::select! {
                 biased;
-                Some((_, tok)) = gate.recv() => Ev::Arrived(tok),
+                // completions first: a query that fails while binding releases the lock before the next
+                // waiter can arrive, so its completion must be seen before that arrival is attributed
                 Some((i, r)) = done_rx.recv() => Ev::Done(i, r),
+                Some((_, tok)) = gate.recv() => Ev::Arrived(tok),
                 _ = tokio::time::sleep(std::time::Duration::from_secs(3600)) => Ev::Quiet,
             };
             match ev {
@@ -322,8 +371,15 @@ async fn run_schedule(ds: &Dataset, cmds: &[Cmd]) -> Outcome {
                 },
                 Ev::Done(j, r) => {
                     trace.push(format!("done{}", j));
-                    if tokens.contains_key(&j) || waiting.contains(&j) {
-                        // a query finished although the driver believes it is paused / waiting
+                    if waiting.contains(&j) {
+                        // finished without reaching the pause point: only a failed query may do that
+                        waiting.retain(|x| *x != j);
+                        if !r.starts_with("ERR") {
+                            consistent = false;
+                        }
+                    }
+                    if tokens.contains_key(&j) {
+                        // a query finished although the driver holds its resume token
                         consistent = false;
                     }
                     results[j - 1] = Some(r);
@@ -333,10 +389,11 @@ async fn run_schedule(ds: &Dataset, cmds: &[Cmd]) -> Outcome {
         }
     }
     cardinalsin::verif_hooks::clear_gate(GATE);
-    for h in handles {
+    for h in handles.values() {
         h.abort();
     }
-    Outcome { results: results.into_iter().map(|r| r.unwrap_or_else(|| "-".to_string())).collect(), trace, consistent }
+    let injected = world.flaky.injected();
+    Outcome { injected, results: results.into_iter().map(|r| r.unwrap_or_else(|| "-".to_string())).collect(), trace, consistent }
 }
 
 /// Each query alone, on its own fresh node over the same data.
@@ -380,7 +437,17 @@ fn all_interleavings(n: usize) -> Vec<Vec<Cmd>> {
     out
 }
 
-fn gen_dataset(rng: &mut Rng, nq: usize, report: &mut Report) -> Dataset {
+/// a cancelled query gets `C<i>` where the plain interleaving has `R<i>`
+fn adapt(cmds: &[Cmd], ds: &Dataset) -> Vec<Cmd> {
+    cmds.iter()
+        .map(|c| match c {
+            Cmd::R(i) if ds.queries.get(*i - 1).map(|q| q.fate == Fate::Cancel).unwrap_or(false) => Cmd::C(*i),
+            other => other.clone(),
+        })
+        .collect()
+}
+
+fn gen_dataset(rng: &mut Rng, nq: usize, force_retry: bool, report: &mut Report) -> Dataset {
     let nchunks = rng.range_usize(3, 5);
     let schema_mix = rng.chance(1, 5);
     let mut chunks = Vec::new();
@@ -429,7 +496,7 @@ fn gen_dataset(rng: &mut Rng, nq: usize, report: &mut Report) -> Dataset {
             2 => " AND value_f64 >= 0".to_string(),
             _ => String::new(),
         };
-        let q = Q { kind, lo, hi, pred };
+        let q = Q { fate: Fate::Normal, kind, lo, hi, pred };
         // the property speaks about queries whose selected chunk sets differ
         let sel = ds0.selected(&q);
         if queries.iter().any(|p| ds0.selected(p) == sel) {
@@ -440,7 +507,32 @@ fn gen_dataset(rng: &mut Rng, nq: usize, report: &mut Report) -> Dataset {
     while queries.len() < nq {
         // fall back: single-chunk windows
         let k = queries.len() % nchunks;
-        queries.push(Q { kind: Kind::Plain, lo: chunks[k].min_ts, hi: chunks[k].min_ts, pred: String::new() });
+        queries.push(Q { fate: Fate::Normal, kind: Kind::Plain, lo: chunks[k].min_ts, hi: chunks[k].min_ts, pred: String::new() });
+    }
+    // failure histories: one query whose binding fails (read error on one of its own chunk files),
+    // optionally followed by a retry of the same query; or one query that is cancelled
+    match if force_retry { 0 } else { rng.below(10) } {
+        0..=3 => {
+            if let Some(k) = (0..queries.len()).find(|k| !ds0.selected(&queries[*k]).is_empty()) {
+                let sel = ds0.selected(&queries[k]);
+                queries[k].fate = Fate::ReadFault(*rng.pick(&sel));
+                report.bump("history.failed_binding");
+                if queries.len() >= 3 && (force_retry || rng.chance(2, 3)) {
+                    // the retry: same statement, no fault (its chunk set equals the failed query's on purpose)
+                    let r = (k + 1) % queries.len();
+                    let mut retry = queries[k].clone();
+                    retry.fate = Fate::Normal;
+                    queries[r] = retry;
+                    report.bump("history.retry_of_failed_query");
+                }
+            }
+        }
+        4 | 5 => {
+            let k = rng.below(queries.len() as u64) as usize;
+            queries[k].fate = Fate::Cancel;
+            report.bump("history.cancelled_query");
+        }
+        _ => {}
     }
     for q in &queries {
         report.bump(&format!("query.kind.{}", q.kind.name()));
@@ -459,10 +551,10 @@ fn corpus() -> Vec<(Dataset, Vec<Cmd>)> {
         ChunkSpec { id: 2, min_ts: 1000, max_ts: 1100, rows: 5, extra_label: false },
         ChunkSpec { id: 3, min_ts: 2000, max_ts: 2100, rows: 3, extra_label: false },
     ];
-    let a = Q { kind: Kind::Plain, lo: 0, hi: 1100, pred: String::new() };
-    let b = Q { kind: Kind::Plain, lo: 1000, hi: 2100, pred: String::new() };
-    let bs = Q { kind: Kind::Stream, lo: 1000, hi: 2100, pred: String::new() };
-    let none = Q { kind: Kind::Plain, lo: 5000, hi: 6000, pred: String::new() };
+    let a = Q { fate: Fate::Normal, kind: Kind::Plain, lo: 0, hi: 1100, pred: String::new() };
+    let b = Q { fate: Fate::Normal, kind: Kind::Plain, lo: 1000, hi: 2100, pred: String::new() };
+    let bs = Q { fate: Fate::Normal, kind: Kind::Stream, lo: 1000, hi: 2100, pred: String::new() };
+    let none = Q { fate: Fate::Normal, kind: Kind::Plain, lo: 5000, hi: 6000, pred: String::new() };
     let mut mixed = chunks.clone();
     mixed[2].extra_label = true;
     vec![
@@ -472,12 +564,51 @@ fn corpus() -> Vec<(Dataset, Vec<Cmd>)> {
         (Dataset { chunks: chunks.clone(), queries: vec![bs.clone(), a.clone()], indexed: false }, vec![Cmd::S(1), Cmd::S(2), Cmd::R(1), Cmd::R(2)]),
         (Dataset { chunks: chunks.clone(), queries: vec![a.clone(), none.clone()], indexed: false }, vec![Cmd::S(1), Cmd::S(2), Cmd::R(1), Cmd::R(2)]),
         (Dataset { chunks: mixed, queries: vec![a.clone(), b.clone()], indexed: false }, vec![Cmd::S(1), Cmd::S(2), Cmd::R(1), Cmd::R(2)]),
+        // A binds {1}; B's binding fails (read error on chunk 2 during schema inference); the retry B'
+        // must be evaluated against chunk 2, not take an "already registered" shortcut onto A's table
+        (
+            Dataset {
+                chunks: chunks.clone(),
+                queries: vec![
+                    Q { fate: Fate::Normal, kind: Kind::Plain, lo: 0, hi: 100, pred: String::new() },
+                    Q { fate: Fate::ReadFault(2), kind: Kind::Plain, lo: 1000, hi: 1100, pred: String::new() },
+                    Q { fate: Fate::Normal, kind: Kind::Plain, lo: 1000, hi: 1100, pred: String::new() },
+                ],
+                indexed: false,
+            },
+            vec![Cmd::S(1), Cmd::R(1), Cmd::S(2), Cmd::R(2), Cmd::S(3), Cmd::R(3)],
+        ),
+        (
+            Dataset {
+                chunks: chunks.clone(),
+                queries: vec![
+                    Q { fate: Fate::Normal, kind: Kind::Stream, lo: 0, hi: 100, pred: String::new() },
+                    Q { fate: Fate::ReadFault(3), kind: Kind::Plain, lo: 1000, hi: 2100, pred: String::new() },
+                    Q { fate: Fate::Normal, kind: Kind::Stream, lo: 1000, hi: 2100, pred: String::new() },
+                ],
+                indexed: false,
+            },
+            vec![Cmd::S(1), Cmd::S(2), Cmd::R(1), Cmd::S(3), Cmd::R(2), Cmd::R(3)],
+        ),
+        // a query dropped at the pause point (it holds the registration lock there), and one dropped
+        // while it waits for the lock
+        (
+            Dataset { chunks: chunks.clone(), queries: vec![Q { fate: Fate::Cancel, ..a.clone() }, b.clone()], indexed: false },
+            vec![Cmd::S(1), Cmd::S(2), Cmd::C(1), Cmd::R(2)],
+        ),
+        (
+            Dataset { chunks: chunks.clone(), queries: vec![a.clone(), Q { fate: Fate::Cancel, ..b.clone() }, none.clone()], indexed: false },
+            vec![Cmd::S(1), Cmd::S(2), Cmd::S(3), Cmd::C(2), Cmd::R(1), Cmd::R(3)],
+        ),
         (Dataset { chunks, queries: vec![a, b, none], indexed: true }, vec![Cmd::S(1), Cmd::S(2), Cmd::S(3), Cmd::R(1), Cmd::R(2), Cmd::R(3)]),
     ]
 }
 
 // --------------------------------------------------------------------- main ----
 struct CaseOut {
+    /// read errors injected / whether the history contains a query with a read fault
+    injected: u64,
+    expects_fault: bool,
     impl_vis: String,
     model_line: String,
     oracle: Vec<String>,
@@ -498,24 +629,42 @@ fn run_case(ds: &Dataset, cmds: &[Cmd], alone: &[String]) -> CaseOut {
             full.push(Cmd::R(i));
         }
     }
-    let impl_vis = out.results.iter().enumerate().map(|(i, r)| format!("q{}={}", i + 1, if r == "-" { "-".to_string() } else { visible_of(r) })).collect::<Vec<_>>().join(";");
+    let fated = |i: usize| ds.queries[i].fate != Fate::Normal;
+    let impl_vis = out
+        .results
+        .iter()
+        .enumerate()
+        .map(|(i, r)| format!("q{}={}", i + 1, if fated(i) { "!".to_string() } else if r == "-" { "-".to_string() } else { visible_of(r) }))
+        .collect::<Vec<_>>()
+        .join(";");
     let mut oracle = Vec::new();
     for i in 0..n {
-        if out.results[i] != alone[i] {
+        let q = &ds.queries[i];
+        let must_equal = match q.fate {
+            Fate::Normal => true,
+            // a query with an injected read error may fail; if it succeeds its answer must be right
+            Fate::ReadFault(_) => out.results[i] != "-" && !out.results[i].starts_with("ERR"),
+            Fate::Cancel => false,
+        };
+        if must_equal && out.results[i] != alone[i] {
             oracle.push(format!(
-                "query {} ({} window [{},{}]{}, selected chunks {:?}) answered [{}] under schedule {} but [{}] when run alone",
-                i + 1, ds.queries[i].kind.name(), ds.queries[i].lo, ds.queries[i].hi, ds.queries[i].pred, ds.selected(&ds.queries[i]), out.results[i], cmds_text(cmds), alone[i]
+                "query {} ({} window [{},{}]{}, selected chunks {:?}) answered [{}] under history {} but [{}] when run alone on a fresh node",
+                i + 1, q.kind.name(), q.lo, q.hi, q.pred, ds.selected(q), out.results[i], cmds_text(cmds), alone[i]
             ));
         }
     }
+    let expects_fault = ds.queries.iter().enumerate().any(|(i, q)| matches!(q.fate, Fate::ReadFault(_)) && cmds.contains(&Cmd::S(i + 1)));
     if !out.consistent {
         oracle.push(format!("driver lost track of the schedule {} (trace {:?})", cmds_text(cmds), out.trace));
     }
     CaseOut {
+        injected: out.injected,
+        expects_fault,
         impl_vis,
         model_line: format!(
-            "fixed {} {} cmds {}",
+            "fixed {} {} {} cmds {}",
             ds.chunks.iter().map(|c| c.id.to_string()).collect::<Vec<_>>().join(","),
+            ds.faults_text(),
             ds.sets_text(),
             cmds_text(&full)
         ),
@@ -561,28 +710,43 @@ pub fn main(args: Args) {
     let inter3 = all_interleavings(3);
     for _ in 0..n2 {
         let mut r = rng.fork();
-        let ds = gen_dataset(&mut r, 2, &mut report);
+        let ds = gen_dataset(&mut r, 2, false, &mut report);
         for s in &inter2 {
-            cases.push(("two_queries".into(), ds.clone(), s.clone()));
+            cases.push(("two_queries".into(), ds.clone(), adapt(s, &ds)));
         }
     }
-    for _ in 0..n3 {
+    for k in 0..n3 {
         let mut r = rng.fork();
-        let ds = gen_dataset(&mut r, 3, &mut report);
+        // every run has at least one failed-binding-then-retry history over all 90 interleavings
+        let ds = gen_dataset(&mut r, 3, k == 0, &mut report);
         if sample3 == usize::MAX {
             for s in &inter3 {
-                cases.push(("three_queries".into(), ds.clone(), s.clone()));
+                cases.push(("three_queries".into(), ds.clone(), adapt(s, &ds)));
             }
         } else {
             for _ in 0..sample3 {
-                cases.push(("three_queries".into(), ds.clone(), r.pick(&inter3).clone()));
+                cases.push(("three_queries".into(), ds.clone(), adapt(r.pick(&inter3[..]).as_slice(), &ds)));
             }
         }
     }
     report.exhaustive = false;
 
     let mut alone_cache: Vec<(String, Vec<String>)> = Vec::new();
-    for (origin, ds, cmds) in &cases {
+    let mut problem_cases = 0usize;
+    let started_at = std::time::Instant::now();
+    let budget_secs: u64 = args.get("budget").and_then(|b| b.parse().ok()).unwrap_or(if args.thorough() { 2400 } else { 400 });
+    for (idx, (origin, ds, cmds)) in cases.iter().enumerate() {
+        if problem_cases >= 10 {
+            report.notes.push(format!("stopped after {} of {} cases: {} cases with disagreements or oracle violations", idx, cases.len(), problem_cases));
+            break;
+        }
+        if started_at.elapsed().as_secs() > budget_secs {
+            report.notes.push(format!("stopped after {} of {} cases: time budget of {} s used up", idx, cases.len(), budget_secs));
+            break;
+        }
+        if idx % 50 == 49 {
+            report.write(&args.out);
+        }
         let key = ds.to_json().to_string();
         let alone = match alone_cache.iter().find(|(k, _)| *k == key) {
             Some((_, a)) => a.clone(),
@@ -605,7 +769,7 @@ pub fn main(args: Args) {
                         overlap = true;
                     }
                 }
-                Cmd::R(_) => open = open.saturating_sub(1),
+                Cmd::R(_) | Cmd::C(_) => open = open.saturating_sub(1),
             }
         }
         let ckey = format!("{}|{}", key, cmds_text(cmds));
@@ -623,7 +787,16 @@ pub fn main(args: Args) {
             }
         };
         report.impl_runs += 1;
+        if c.expects_fault {
+            report.bump(if c.injected > 0 { "fault.read_error_injected" } else { "fault.configured_but_not_reached" });
+        }
+        if cmds.iter().any(|x| matches!(x, Cmd::C(_))) {
+            report.bump("history.with_cancel");
+        }
         let (differs, m) = model.differs(&c.model_line, &c.impl_vis);
+        if differs || !c.oracle.is_empty() {
+            problem_cases += 1;
+        }
         report.sample(json!({"sets": ds.sets_text(), "schedule": cmds_text(cmds), "impl": c.impl_vis, "model": m, "results": c.results}));
         if differs {
             report.disagreement(json!({
